@@ -26,6 +26,8 @@ def run(rep):
     dtchecks.forward_vjp(rep, fnd, "C06", rep.tier)
     dtchecks.inverse_vjp(rep, fnd, res2.records, "C06", rep.tier)
     dtchecks.numeric_vjp(rep, fnd, "C06", rep.tier)
+    from .. import scalechecks
+    scalechecks.dtcwt(rep, "C06", rep.tier, "vjp")          # large inputs (size thresholds)
     rep.assumptions += ["the identities of the shipped tables (C18) are the premise of adjointness; user-supplied filters "
                         "that violate them are outside the property"]
 
